@@ -4,7 +4,7 @@
 From Verif Require Import Common Ownership Teardown.
 Open Scope N_scope.
 
-Definition obs0 : obs := mkObs 0 [] [] [] [] [] [] [] 0 0 [].
+Definition obs0 : obs := mkObs 0 [] [] [] [] [] [] [] 0 0 [] [].
 
 Definition ob_find (o : obs) (id : tid) : option task := find_task id (ob_roster o).
 Definition ob_env (o : obs) (e : N) : option envobs :=
@@ -145,7 +145,8 @@ Definition mon04 (c : hcase) : N :=
           6 active detectors are not exactly those of the listed environments
           7 calls pending await were not cancelled
           8 a DESTROY hook started while a non-hook task was still owned by the environment
-          9 a destroy request did not return (watchdog) *)
+          9 a destroy request did not return (watchdog)
+         10 / 11 a launched task leaked (see mon06_step) *)
 Definition gone_checks (ops : list op) (e : N) (prev cur : obs) (keep : bool)
            (created : bool) : list N :=
   let c3 := match ob_env cur e with Some _ => 3 | None => 0 end in
@@ -163,9 +164,17 @@ Definition gone_checks (ops : list op) (e : N) (prev cur : obs) (keep : bool)
      must be KILLed (code 4), and so must those still staging at that moment (code 5) *)
   let launched := if created then filter (fun id => N.eqb (fst id) e) (ob_launch cur) else [] in
   let mode (id : tid) : N := match role_of ops id with Some r => r_launch r | None => 9 end in
-  let c4b := if forallb (fun id => negb (N.eqb (mode id) 0) || killed id || still_mine id) launched
+  (* a launched task that never became owned may stay in the roster, unowned, for the next cleanup;
+     the tasks of the non-final attempts of a retried deployment leak (code 10 of mon06_step, C06-d) *)
+  let kept (id : tid) : bool :=
+    existsb (fun t => tid_eqb (t_id t) id && negb (owner_is e t)) (ob_roster cur) ||
+    match spec_of e ops with
+    | Some c => N.eqb (c_fail c) 6 && N.ltb (snd id) (2 * Nlen (c_roles c)) && mem_tid id (ob_leak cur)
+    | None => false
+    end in
+  let c4b := if forallb (fun id => negb (N.eqb (mode id) 0) || killed id || still_mine id || kept id) launched
              then 0 else 4 in
-  let c5 := if forallb (fun id => negb (N.eqb (mode id) 2) || killed id || still_mine id) launched
+  let c5 := if forallb (fun id => negb (N.eqb (mode id) 2) || killed id || still_mine id || kept id) launched
             then 0 else 5 in
   let c7 := if N.eqb (ob_pend cur) 0 then 0 else 7 in
   [c3; c2; c4a; c4b; c7; c1; c5].
@@ -185,7 +194,19 @@ Definition mon06_step (ops : list op) (prev : obs) (o : op) (cur : obs) : list N
     | OFinish e c => if N.eqb (ob_rc cur) 1 then gone_checks ops e prev cur false true else []
     | _ => []
     end in
-  c6 :: c8 :: specific.
+  (* 10 / 11: a task the core launched runs at the master, is in no roster and was never sent KILL.
+     10: it was launched by a non-final attempt of a deployment that acquireTasks retried (C06-d);
+     11: any other *)
+  let fresh := filter (fun id => negb (mem_tid id (ob_leak prev))) (ob_leak cur) in
+  let early_attempt (id : tid) : bool :=
+    match o with
+    | OCreate e c | OFinish e c =>
+        N.eqb (fst id) e && N.eqb (c_fail c) 6 && N.ltb (snd id) (2 * Nlen (c_roles c))
+    | _ => false
+    end in
+  let c11 := if forallb early_attempt fresh then 0 else 11 in
+  let c10 := match fresh with [] => 0 | _ => 10 end in
+  c6 :: c8 :: c11 :: specific ++ [c10].
 
 (* a history whose observations stop early: the request at that position did not return within the
    watchdog time.  For a destroy request that is the property itself (code 9: TeardownEnvironment or
@@ -198,7 +219,7 @@ Definition hang_code (c : hcase) : N :=
   end.
 
 Definition mon06 (c : hcase) : N :=
-  first_code []
+  first_code [10]
     (mon_walk (mon06_step (h_ops c)) obs0 (h_ops c) (h_obs c) ++
      (if Nat.ltb (length (h_obs c)) (length (h_ops c)) then [hang_code c]
       else if Nat.ltb (length (h_ops c)) (length (h_obs c)) then [90] else [])).
